@@ -193,6 +193,58 @@ pub proof fn lemma_sp_casts(s: u16, c: u16)
 //@before let ss = :: proof { lemma_sp_casts(old(vm).arch.sp, old(vm).arch.cs); }
 //@end
 
+
+// ---- the register forms: push <reg> / pop <reg> through the real get_word_reg_val / set_word_reg_val
+//@item src/lib/util/data_util.rs enum WordReg
+pub open spec fn reg_of(a: i8086, r: WordReg) -> u16 {
+    match r {
+        WordReg::AX => a.ax, WordReg::BX => a.bx, WordReg::CX => a.cx, WordReg::DX => a.dx, WordReg::SS => a.ss, WordReg::DS => a.ds,
+        WordReg::CS => a.cs, WordReg::ES => a.es, WordReg::SI => a.si, WordReg::DI => a.di, WordReg::SP => a.sp, WordReg::BP => a.bp,
+    }
+}
+pub open spec fn with_reg(a: i8086, r: WordReg, v: u16) -> i8086 {
+    match r {
+        WordReg::AX => i8086 { ax: v, ..a }, WordReg::BX => i8086 { bx: v, ..a }, WordReg::CX => i8086 { cx: v, ..a }, WordReg::DX => i8086 { dx: v, ..a },
+        WordReg::SS => i8086 { ss: v, ..a }, WordReg::DS => i8086 { ds: v, ..a }, WordReg::CS => i8086 { cs: v, ..a }, WordReg::ES => i8086 { es: v, ..a },
+        WordReg::SI => i8086 { si: v, ..a }, WordReg::DI => i8086 { di: v, ..a }, WordReg::SP => i8086 { sp: v, ..a }, WordReg::BP => i8086 { bp: v, ..a },
+    }
+}
+//@fn src/lib/util/data_util.rs get_word_reg_val
+//@contract
+    ensures r == reg_of(vm.arch, reg),
+//@end
+//@fn src/lib/util/data_util.rs set_word_reg_val
+//@contract
+    ensures final(vm).arch == with_reg(old(vm).arch, reg, val), final(vm).mem == old(vm).mem,
+//@end
+//@action src/lib/interpreter/interpreter.rs push = "push", pop_reg as bridge_push_reg
+//@contract
+//@dropunused
+    requires <usize as IntoSpec<usize>>::obeys_into_spec(),
+    ensures
+        // the word pushed is the register AFTER the decrement of SP (for `push sp` the 8086 stores the new SP)
+        stk_view(final(vm)).sp == push(stk_view(old(vm)), reg_of(final(vm).arch, r) as int).sp, //# C05 bridge.push_moves_sp_like_the_lemmas_push_step
+        stk_view(final(vm)).mem =~= push(stk_view(old(vm)), reg_of(final(vm).arch, r) as int).mem, //# C05 bridge.push_writes_memory_like_the_lemmas_push_step
+        final(vm).arch == (i8086 { sp: final(vm).arch.sp, ..old(vm).arch }),
+//@before vm.arch.sp = :: proof { lemma_sp_casts(old(vm).arch.sp, reg_of(old(vm).arch, r)); lemma_sp_casts(old(vm).arch.sp, ((old(vm).arch.sp as int - 2 + 65536) % 65536) as u16); }
+//@end
+pub proof fn lemma_word(lo: u8, hi: u8)
+    ensures (lo as u16 | (hi as u16) << 8) == (lo as u16 + 256 * (hi as u16)) as u16, lo as int + 256 * (hi as int) < 65536,
+{
+    assert((lo as u16 | (hi as u16) << 8) == (lo as u16 + 256 * (hi as u16)) as u16) by (bit_vector);
+}
+//@action src/lib/interpreter/interpreter.rs pop = "pop", pop_reg as bridge_pop_reg
+//@contract
+//@dropunused
+    requires <usize as IntoSpec<usize>>::obeys_into_spec(),
+    ensures
+        reg_of(final(vm).arch, r) as int == pop(stk_view(old(vm))).1, //# C05 bridge.pop_delivers_the_word_of_the_lemmas_pop_step
+        !(r is SP) ==> final(vm).arch.sp as int == pop(stk_view(old(vm))).0.sp, //# C05 bridge.pop_moves_sp_like_the_lemmas_pop_step
+        final(vm).mem == old(vm).mem,
+//@before let ss = :: proof { lemma_sp_casts(old(vm).arch.sp, old(vm).arch.cs); }
+//@before let val = :: proof { lemma_word(vm.mem[base as int], vm.mem[(base as int + 1) % 0x100000]); }
+//@end
+
 // ================================================================================ C12: layout
 /// Loader contract (Verus unit `loader`): a definition of size n occupies counter .. counter+n and advances the
 /// counter by n.  Hence a sequence of definitions is laid out contiguously, in order, from the counter's start.
